@@ -17,11 +17,11 @@ type JV struct {
 	Keys []string
 }
 
-func jNull() *JV            { return &JV{K: "null"} }
-func jBool(b bool) *JV      { return &JV{K: "bool", B: b} }
-func jNum(t string) *JV     { return &JV{K: "num", T: t} }
-func jStr(t string) *JV     { return &JV{K: "str", T: t} }
-func jArr(xs ...*JV) *JV    { return &JV{K: "arr", Xs: xs} }
+func jNull() *JV         { return &JV{K: "null"} }
+func jBool(b bool) *JV   { return &JV{K: "bool", B: b} }
+func jNum(t string) *JV  { return &JV{K: "num", T: t} }
+func jStr(t string) *JV  { return &JV{K: "str", T: t} }
+func jArr(xs ...*JV) *JV { return &JV{K: "arr", Xs: xs} }
 func jObj(kv ...any) *JV {
 	o := &JV{K: "obj"}
 	for i := 0; i+1 < len(kv); i += 2 {
